@@ -260,6 +260,9 @@ def check_declared_vs_empty(ctx, rep):
                 if isinstance(st, ast.Assign) and len(st.targets) == 1 and isinstance(st.targets[0], ast.Name) and isinstance(st.value, ast.Call) \
                         and isinstance(st.value.func, ast.Attribute) and st.value.func.attr == 'get_symbol_set' and len(st.value.args) == 1:
                     optional.add(st.targets[0].id)     # no default: None when the declaration is omitted
+                if isinstance(st, ast.Assign) and len(st.targets) == 1 and isinstance(st.targets[0], ast.Name) and isinstance(st.value, ast.Call) \
+                        and isinstance(st.value.func, ast.Attribute) and st.value.func.attr == 'get' and u(st.value.func.value).endswith('.items') and len(st.value.args) == 1:
+                    optional.add(st.targets[0].id)     # None when the keyword is missing, [] when it is declared empty
             for t in walk_no_nested(f.node):
                 if not isinstance(t, (ast.If, ast.IfExp, ast.While)):
                     continue
